@@ -212,6 +212,7 @@ class Run:
     def __init__(self, prop, tier, seed):
         self.prop, self.tier, self.seed = prop, tier, seed
         self.rng = random.Random(seed)
+        self.rng_ambient = random.Random(seed * 1000003 + 17)
         self.hist = {}
         self.samples = []
         self.nontrivial = set()
@@ -229,6 +230,90 @@ class Run:
 
     def log(self, *args):
         print(f'[{self.prop} {time.time() - self.t0:6.1f}s]', *args, file=sys.stderr, flush=True)
+
+
+# ------------------------------------------------------------------------------------------------
+# ambient configuration: the same case under another configuration of the process (a property that holds "for all
+# inputs" holds whatever the log level or the interpreter flags are)
+# ------------------------------------------------------------------------------------------------
+
+AMBIENT_RATE = 0.1
+
+
+class debug_logging:
+    """valjean's loggers at DEBUG, records delivered to a handler that drops them (the runner disables logging otherwise)"""
+
+    def __enter__(self):
+        import logging
+        self.logging = logging
+        self.root = logging.getLogger()
+        self.vj = logging.getLogger('valjean')
+        self.saved = (logging.root.manager.disable, self.root.level, self.vj.level, list(self.root.handlers),
+                      list(self.vj.handlers), self.vj.propagate)
+        logging.disable(logging.NOTSET)
+        for logger in (self.root, self.vj):
+            for handler in list(logger.handlers):
+                logger.removeHandler(handler)
+        self.vj.addHandler(logging.NullHandler())
+        self.vj.propagate = False
+        self.vj.setLevel(logging.DEBUG)
+        return self
+
+    def __exit__(self, *exc):
+        disable, rlevel, vlevel, rhandlers, vhandlers, propagate = self.saved
+        for handler in list(self.vj.handlers):
+            self.vj.removeHandler(handler)
+        for handler in rhandlers:
+            self.root.addHandler(handler)
+        for handler in vhandlers:
+            self.vj.addHandler(handler)
+        self.root.setLevel(rlevel)
+        self.vj.setLevel(vlevel)
+        self.vj.propagate = propagate
+        self.logging.disable(disable)
+        return False
+
+
+def install_ambient(plugin):
+    """cases carrying '_ambient': 'debuglog' run the implementation with debug logging switched on"""
+    orig = plugin.run_impl
+
+    def run_impl(case, run):
+        if isinstance(case, dict) and case.get('_ambient') == 'debuglog':
+            run.count('ambient:debuglog')
+            with debug_logging():
+                return orig(case, run)
+        return orig(case, run)
+    plugin.run_impl = run_impl
+
+
+def with_ambient(run, case):
+    if not run.ambient_ok:
+        return case
+    if isinstance(case, dict) and '_ambient' not in case and run.rng_ambient.random() < AMBIENT_RATE:
+        case['_ambient'] = 'debuglog'
+    return case
+
+
+def optimized_pass(run, args, budget, time_limit):
+    """the generated stream once more, in a python -O child (assert statements and `if __debug__` blocks removed from
+    valjean): a tenth of the budget.  Returns (violation line or None, summary dict)."""
+    n = max(20, budget // 10)
+    cmd = [sys.executable, '-O', os.path.abspath(__file__), run.prop, '--tier', run.tier, '--budget', str(n), '--subpass']
+    env = dict(os.environ, VERIF_SEED=str(run.seed + 7919))
+    try:
+        proc = subprocess.run(cmd, stdout=subprocess.PIPE, stderr=subprocess.PIPE, text=True, env=env,
+                              timeout=(time_limit or 600) + 300)
+    except subprocess.TimeoutExpired:
+        raise HarnessError('the python -O pass did not finish')
+    summary = None
+    for line in proc.stdout.splitlines():
+        if line.startswith('SUBPASS '):
+            summary = json.loads(line[len('SUBPASS '):])
+    if proc.returncode not in (0, 1) or summary is None:
+        raise HarnessError(f'the python -O pass failed (exit {proc.returncode}): {proc.stderr[-1500:]}')
+    line = next((ln for ln in proc.stdout.splitlines() if ln.startswith('VIOLATION ')), None)
+    return line, summary
 
 
 def run_case(run, plugin, case, origin):
@@ -325,6 +410,9 @@ def main(argv=None):
     parser.add_argument('--tier', default=os.environ.get('VERIF_TIER', 'quick'), choices=['quick', 'thorough'])
     parser.add_argument('--replay')
     parser.add_argument('--budget', type=int, help='override the number of generated cases')
+    parser.add_argument('--subpass', action='store_true',
+                        help='internal: second pass of a check under another interpreter configuration (python -O): '
+                             'generated stream only, no Lean stage, no evidence file')
     args = parser.parse_args(argv)
     prop = args.prop.upper()
     seed = int(os.environ.get('VERIF_SEED', '0') or 0)
@@ -340,7 +428,9 @@ def main(argv=None):
         print(f'cannot load plugin for {prop}: {exc}', file=sys.stderr)
         traceback.print_exc()
         return 2
+    install_ambient(plugin)
     run = Run(prop, args.tier, seed)
+    run.ambient_ok = getattr(plugin, 'AMBIENT_DEBUGLOG', True)
     start_watchdog(run, getattr(plugin, 'CASE_LIMIT', 600))
     try:
         if args.replay:
@@ -362,6 +452,8 @@ def main(argv=None):
 def replay(run, plugin, path):
     with open(path if os.path.isabs(path) else os.path.join(VERIF, path), encoding='utf-8') as fobj:
         data = json.load(fobj)
+    if data.get('python_optimize') and not sys.flags.optimize:
+        os.execv(sys.executable, [sys.executable, '-O'] + sys.argv)
     subprocess.run(['lake', 'build'], cwd=LEAN, check=False, stdout=subprocess.DEVNULL)
     run.driver = Driver()
     case = data['case']
@@ -378,8 +470,11 @@ def replay(run, plugin, path):
 
 def check(run, plugin, args):
     prop, tier = run.prop, run.tier
-    lean = lean_obligations(prop, plugin.THEOREMS, run.log, tier)
-    run.log(f"lean: {lean['discharged']}/{lean['obligations']} obligations, ok={lean['ok']} ({lean['build_s']}s build)")
+    if args.subpass:
+        lean = {'ok': True, 'obligations': 0, 'discharged': 0, 'failures': [], 'axioms': {}, 'build_s': 0.0}
+    else:
+        lean = lean_obligations(prop, plugin.THEOREMS, run.log, tier)
+        run.log(f"lean: {lean['discharged']}/{lean['obligations']} obligations, ok={lean['ok']} ({lean['build_s']}s build)")
     findings = load_findings(prop)
     driver_ok = True
     try:
@@ -416,9 +511,9 @@ def check(run, plugin, args):
                 f['signature'] = sig
                 run.oracle_failures.append(f)
 
-    for name, case in load_corpus(prop):
+    for name, case in ([] if args.subpass else load_corpus(prop)):
         absorb(*one(case, f'corpus/{name}'))
-    cases = plugin.exhaustive(tier, run) if hasattr(plugin, 'exhaustive') else []
+    cases = plugin.exhaustive(tier, run) if hasattr(plugin, 'exhaustive') and not args.subpass else []
     for case in cases:
         absorb(*one(case, 'exhaustive'))
         if run.oracle_failures:
@@ -428,7 +523,7 @@ def check(run, plugin, args):
         if deadline and time.time() > deadline:
             run.log(f'time limit reached after {n} generated cases')
             break
-        case = plugin.gen(run.rng, tier, run)
+        case = with_ambient(run, plugin.gen(run.rng, tier, run))
         absorb(*one(case, f'gen#{n}'))
         n += 1
     run.count('generated', n)
@@ -461,6 +556,15 @@ def check(run, plugin, args):
 
     violations = 0
     lines = []
+    opt_line = None
+    if not args.subpass and not run.oracle_failures and not broken and not sys.flags.optimize \
+            and not os.environ.get('VERIF_NO_OPT_PASS'):
+        opt_line, opt_summary = optimized_pass(run, args, budget, plugin.TIME_LIMIT[tier] if hasattr(plugin, 'TIME_LIMIT') else None)
+        run.extra['python_O_pass'] = opt_summary
+        for key, val in opt_summary.get('known_findings_hit', {}).items():
+            hit = next((e for e in findings if e['signature'] == key), None)
+            if hit:
+                run.known_hits.setdefault(key, {'entry': hit, 'n': 0, 'example': None})['n'] += val
     for sig, hit in run.known_hits.items():
         lines.append(f"KNOWN-FINDING: property={prop} {hit['entry'].get('description', sig)} "
                      f"[signature={sig}, {hit['n']} case(s) this run]")
@@ -472,7 +576,8 @@ def check(run, plugin, args):
             return any(cl == f['clause'] for cl, _ in (plugin.oracle(c, impl, run) or []))
         small = shrink(run, plugin, f['case'], still)
         impl = plugin.run_impl(small, run)
-        path = write_replay(prop, run.seed, 0, {
+        path = write_replay(prop, run.seed, 'O' if args.subpass else 0, {
+            'python_optimize': bool(sys.flags.optimize),
             'property': prop, 'seed': run.seed, 'tier': tier, 'kind': 'counterexample', 'case': small,
             'impl_observation': impl, 'oracle_clause': f['clause'],
             'detail': [d for c, d in (plugin.oracle(small, impl, run) or []) if c == f['clause']][:3] or f['detail'],
@@ -483,7 +588,8 @@ def check(run, plugin, args):
         violations = 1
     elif broken:
         m = run.mismatches[0] if run.mismatches else None
-        path = write_replay(prop, run.seed, 0, {
+        path = write_replay(prop, run.seed, 'O' if args.subpass else 0, {
+            'python_optimize': bool(sys.flags.optimize),
             'property': prop, 'seed': run.seed, 'tier': tier, 'kind': 'no-failing-input-found',
             'broken': ('correspondence: ' + plugin.CORRESPONDS if m else 'lean obligations'),
             'theorems': plugin.THEOREMS, 'lean_failures': lean['failures'],
@@ -494,7 +600,20 @@ def check(run, plugin, args):
         lines.append(f'VIOLATION property={prop} replay={path} no-failing-input-found')
         violations = 1
 
+    if opt_line:
+        lines.append(opt_line)
+        violations = 1
     wall = round(time.time() - run.t0, 2)
+    if args.subpass:
+        for line in lines:
+            if line.startswith('VIOLATION'):
+                print(line)
+        print('SUBPASS ' + json.dumps({
+            'flags': '-O', 'evaluations': run.evaluations, 'distinct_nontrivial': len(run.nontrivial),
+            'traces_validated_against_impl': run.traces_validated, 'disagreements': len(run.mismatches),
+            'known_findings_hit': {s: h['n'] for s, h in run.known_hits.items()}, 'violations': violations,
+            'wall_s': wall}))
+        return 1 if violations else 0
     cov = {
         'obligations': lean['obligations'], 'discharged': lean['discharged'],
         'checker_cmd': f'cd lean && lake build && lake env lean Audit/{prop}.lean   # #print axioms of every theorem',
